@@ -162,14 +162,16 @@ Definition b64_spec (bs : list N) : list N :=
    or two characters; non-zero trailing bits are accepted and dropped *)
 Definition b64_index (c : N) : option N := option_map N.of_nat (find_idx c rfc4648_alphabet).
 Definition is_b64char (c : N) : bool := match b64_index c with Some _ => true | None => false end.
-Definition b64_body (s : list N) : list N :=
-  match rev s with
-  | 61 :: 61 :: r => rev r
-  | 61 :: r => rev r
-  | _ => s
+(* alphabet characters followed by at most two '=' (which is not an alphabet character) *)
+Fixpoint wf_tail (s : list N) : bool :=
+  match s with
+  | [] => true
+  | c :: r =>
+    if c =? pad_char
+    then match r with [] => true | [d] => d =? pad_char | _ => false end
+    else is_b64char c && wf_tail r
   end.
-Definition wf_b64b (s : list N) : bool :=
-  Nat.eqb (length s mod 4) 0 && forallb is_b64char (b64_body s).
+Definition wf_b64b (s : list N) : bool := Nat.eqb (length s mod 4) 0 && wf_tail s.
 Definition wf_b64 (s : list N) : Prop :=
   exists body pad, s = body ++ pad /\ (length s mod 4 = 0)%nat /\
     Forall (fun c => In c rfc4648_alphabet) body /\
@@ -177,5 +179,7 @@ Definition wf_b64 (s : list N) : Prop :=
 
 Definition char_bits (c : N) : list bool :=
   match b64_index c with Some d => digit_bits d | None => [] end.
+(* every alphabet character contributes its 6 bits, padding contributes none; the bit string is
+   cut into octets and left-over bits are dropped *)
 Definition b64decode_spec (s : list N) : option (list N) :=
-  if wf_b64b s then Some (map bits_val (chunk8 (flat_map char_bits (b64_body s)))) else None.
+  if wf_b64b s then Some (map bits_val (chunk8 (flat_map char_bits s))) else None.
